@@ -106,6 +106,8 @@ type atif struct {
 	cond string
 	cl   *clause
 	when *clause // optional guard
+	// ordinal: -1 = every branch with this text; n = only the n-th one in generation order
+	ordinal int
 	seen bool
 }
 
@@ -333,6 +335,16 @@ func loadContractFile(c *contracts, path string, pkgpath string) error {
 			}
 			text := rest[1 : k+1]
 			body := strings.TrimSpace(rest[k+2:])
+			// "text"#n : the n-th branch (in generation order, from 0) with that condition text; without #n, every one
+			ordinal := -1
+			if strings.HasPrefix(body, "#") {
+				j := 1
+				for j < len(body) && body[j] >= '0' && body[j] <= '9' {
+					j++
+				}
+				ordinal, _ = strconv.Atoi(body[1:j])
+				body = strings.TrimSpace(body[j:])
+			}
 			// optional guard:  atif "cond" when G iff E   (obligation: G ==> (cond <==> E))
 			var when *clause
 			if strings.HasPrefix(body, "when ") {
@@ -354,7 +366,7 @@ func loadContractFile(c *contracts, path string, pkgpath string) error {
 			if err != nil {
 				return err
 			}
-			cur.atifs = append(cur.atifs, &atif{cond: text, cl: cl, when: when})
+			cur.atifs = append(cur.atifs, &atif{cond: text, cl: cl, when: when, ordinal: ordinal})
 		case "atcall":
 			// atcall <callee>#<k> requires <expr>
 			f := strings.Fields(rest)
@@ -897,6 +909,16 @@ func (p *cparser) primary() *cexpr {
 			in := p.next()
 			if v.kind != "id" || in.text != "in" {
 				panic(parseErr("bad quantifier syntax: forall i in [lo,hi): P"))
+			}
+			// forall k in keys(m): P   - over the keys of a map
+			if p.peek().kind == "id" && p.peek().text == "keys" {
+				p.next()
+				p.expect("(")
+				m := p.impl()
+				p.expect(")")
+				p.expect(":")
+				body := p.impl()
+				return &cexpr{op: t.text + "keys", name: v.text, args: []*cexpr{m, body}, pos: t.pos}
 			}
 			p.expect("[")
 			lo := p.impl()
